@@ -22,7 +22,7 @@ Theorem lz_roundtrip_any_index_proof : forall hash st rf tgt,
     (enc = [] <-> tgt = rf) /\ Forall (fun b => b <> 255) enc.
 Proof.
   intros hash st rf tgt Hwf Hne Hsym Hsz.
-  assert (W := Hwf). destruct W as (W1 & W2 & W3 & W4 & W5).
+  assert (W := Hwf). destruct W as (W1 & W2 & W3 & W4 & W5 & W6).
   assert (L : lenN (refp st) = lenN rf + key_len st) by (rewrite W1, lenN_app, lenN_repeat; lia).
   unfold lz_encode. destruct ((lenN tgt =? ref_len st) && zip_all_eq tgt (refp st)) eqn:E.
   - assert (tgt = rf).
